@@ -468,6 +468,8 @@ func (w *World) callOrder(id string, opts *RunOpts, ex *Extra) {
 	w.successPathCalls(id, opts, ex)
 	w.afterLoop(id, opts, ex)
 	w.alwaysCalls(id, opts, ex)
+	w.keyedMaps(id, opts, ex)
+	w.stateInventory(id, opts, ex)
 	for _, c := range w.specs.Contracts {
 		if !hasTag(c.Props, id) {
 			continue
@@ -963,4 +965,153 @@ func calleeMatches(name, pattern string) bool {
 		}
 	}
 	return false
+}
+
+// keyedMaps: `maps-keyed-by-field <Field> on-receiver` — every map in the
+// function that is read or written with a key loaded from the field <Field> of
+// some value is a DIRECT field of the function's receiver (g.m[...]), not a map
+// reached through a further pointer (g.output.m, g.Generator.m, a global). The
+// raw text of a "$ref" only has a meaning relative to its own document, so a
+// table keyed by it belongs to the per-document generator.
+func (w *World) keyedMaps(id string, opts *RunOpts, ex *Extra) {
+	for _, c := range w.specs.Contracts {
+		if !hasTag(c.Props, id) {
+			continue
+		}
+		for _, cl := range c.Clauses {
+			if cl.Kind != "maps-keyed-by-field" {
+				continue
+			}
+			f := strings.Fields(cl.Raw)
+			if len(f) != 2 || f[1] != "on-receiver" {
+				continue
+			}
+			name := fmt.Sprintf("%s/maps-keyed-by-field:%s-on-receiver", c.Func, f[0])
+			fn := w.findFunc(c)
+			ex.Count++
+			if fn == nil || len(fn.Params) == 0 {
+				ex.Lines = append(ex.Lines, "UNDECIDED: "+c.Func+" not found; "+name+" is not checked")
+				ex.Discharged++
+				continue
+			}
+			recv := fn.Params[0]
+			direct := func(m ssa.Value) (bool, string) {
+				ld, ok := m.(*ssa.UnOp)
+				if !ok {
+					return false, m.String()
+				}
+				switch x := ld.X.(type) {
+				case *ssa.FieldAddr:
+					if x.X == recv {
+						return true, ""
+					}
+					return false, "a field reached through " + x.X.String() + " (" + x.X.Type().String() + ")"
+				case *ssa.Global:
+					return false, "the package-level variable " + x.Name()
+				}
+				return false, ld.X.String()
+			}
+			bad := ""
+			for _, b := range fn.Blocks {
+				for _, ins := range b.Instrs {
+					var m, key ssa.Value
+					switch x := ins.(type) {
+					case *ssa.Lookup:
+						m, key = x.X, x.Index
+					case *ssa.MapUpdate:
+						m, key = x.Map, x.Key
+					default:
+						continue
+					}
+					if _, isMap := m.Type().Underlying().(*types.Map); !isMap || fieldNameOf(key) != f[0] {
+						continue
+					}
+					if ok, how := direct(m); !ok && bad == "" {
+						p := w.prog.Fset.Position(ins.Pos())
+						bad = fmt.Sprintf("the map accessed with a key taken from field %s at line %d is %s, not a field of the receiver itself: a table keyed by the raw reference text is shared beyond the document that gives the text its meaning", f[0], p.Line, how)
+					}
+				}
+			}
+			if bad != "" {
+				path := writeTextReplay(opts, id, name, bad+"\n(abstract-mode data-flow obligation over go/ssa)", "", "", "bin/govc check "+id)
+				ex.Lines = append(ex.Lines, fmt.Sprintf("VIOLATION property=%s replay=%s no-failing-input-found", id, path))
+				ex.Lines = append(ex.Lines, "  failed obligation: "+name+": "+bad)
+				ex.Violations++
+			} else {
+				ex.Discharged++
+			}
+		}
+	}
+}
+
+// stateInventory: `collections <Type>: f1 f2 ...` — the map- and slice-typed
+// fields of the named struct type (the state that accumulates across schema
+// documents and DoFile calls) are exactly the listed ones. The contracts of this
+// package describe what each of them holds and how it is keyed; a further
+// collection on the type is state that no contract speaks about (a memo, a
+// registry), and the properties that quantify over several documents in one run
+// (C10, C20, C03, C12) are no longer carried by the contracts. A listed field that
+// has disappeared leaves the clause undecided.
+func (w *World) stateInventory(id string, opts *RunOpts, ex *Extra) {
+	for _, c := range w.specs.Contracts {
+		if !hasTag(c.Props, id) {
+			continue
+		}
+		for _, cl := range c.Clauses {
+			if cl.Kind != "collections" {
+				continue
+			}
+			i := strings.Index(cl.Raw, ":")
+			if i < 0 {
+				continue
+			}
+			tn := strings.TrimSpace(cl.Raw[:i])
+			want := map[string]bool{}
+			for _, f := range strings.Fields(cl.Raw[i+1:]) {
+				want[f] = true
+			}
+			name := fmt.Sprintf("%s:%s/collections", c.Pkg, tn)
+			ex.Count++
+			var st *types.Struct
+			for path, p := range w.ssaPkgs {
+				if path == w.modPath+"/"+c.Pkg || (c.Pkg == "" && path == w.modPath) {
+					if m, ok := p.Members[tn].(*ssa.Type); ok {
+						st, _ = m.Type().Underlying().(*types.Struct)
+					}
+				}
+			}
+			if st == nil {
+				ex.Lines = append(ex.Lines, "UNDECIDED: "+name+": struct type "+tn+" not found")
+				ex.Discharged++
+				continue
+			}
+			var extra []string
+			have := map[string]bool{}
+			for k := 0; k < st.NumFields(); k++ {
+				f := st.Field(k)
+				switch f.Type().Underlying().(type) {
+				case *types.Map, *types.Slice:
+					have[f.Name()] = true
+					if !want[f.Name()] {
+						extra = append(extra, f.Name()+" "+f.Type().String())
+					}
+				}
+			}
+			for f := range want {
+				if !have[f] {
+					ex.Lines = append(ex.Lines, fmt.Sprintf("UNDECIDED: %s: listed field %s is no longer a collection of %s", name, f, tn))
+				}
+			}
+			if len(extra) > 0 {
+				sort.Strings(extra)
+				msg := fmt.Sprintf("%s has collection field(s) no contract describes: %s — state that accumulates across documents and calls (how is it keyed? when is it consulted?) is outside every contract that carries C10/C20/C03/C12; describe it in the contract file (and list it) or keep it out of the shared type", tn, strings.Join(extra, ", "))
+				path := writeTextReplay(opts, id, name, msg+"\n(abstract-mode obligation over go/types)", "", "", "bin/govc check "+id)
+				ex.Lines = append(ex.Lines, fmt.Sprintf("VIOLATION property=%s replay=%s no-failing-input-found", id, path))
+				ex.Lines = append(ex.Lines, "  failed obligation: "+name+": "+msg)
+				ex.Violations++
+			} else {
+				ex.Discharged++
+			}
+		}
+	}
 }
